@@ -35,8 +35,9 @@ TRUSTED_BASE = [
     'hand-written model tied to core/src/num/{real,bigrat,biguint}.rs only by this differential run; complex.rs formulas are not modelled (their results are checked against the certified points only)',
 ]
 ASSUMPTIONS = [
-    'C15_accuracy_partial: libm within the stated bound at the consulted point, and into_f64 within 2^-50 relative of its argument (a Section hypothesis; established bit-exactly against the implementation at L1 on the sampled inputs, not proved for all inputs)',
+    'C15_accuracy_partial / _cos / _atan: libm within 2^-52 of the real function at the consulted point (finite, below 2^64), and into_f64 within 2^-50 relative of its argument; the second hypothesis is a theorem (C15_into_f64_small_accurate) when the simplified numerator and denominator fit one 64-bit limb, and is established bit-exactly against the implementation at L1 on the sampled inputs otherwise',
     'the printed decimal (to 15 dp) is the value (formatting is C02/C03 territory); cross-checked against the @debug rational on every real-valued sample',
+    'Rust f64::sin etc. are the platform libm called by the harness as well (same process image), so the oracle table handed to the model is what fend itself received',
 ]
 
 FNAMES = ['sin', 'cos', 'asin', 'acos', 'atan', 'sinh', 'cosh', 'tanh', 'asinh', 'acosh', 'atanh', 'log2', 'ln', 'log10', 'exp']
@@ -1056,6 +1057,49 @@ def check_l2(c, pi_model):
 
 # ----------------------------------------------------------------------------
 
+C15_CONE = ['Base.Prelude', 'Elem.Bridge', 'Elem.Model', 'Elem.ModelProofs', 'Elem.BridgeProofs', 'Elem.RootProofs', 'Elem.RoundProofs',
+            'Elem.TrigReals', 'Elem.PointDefs', 'Elem.Accuracy', 'Elem.AccuracySmall', 'Properties.C15']
+
+def thorough_proof_c15(c):
+    """thorough tier: rebuild the cone of Properties/C15.vo from scratch in a fresh directory and re-check
+    every module of the cone with coqchk.  vlib.Check.thorough_proof is not used here: its coqchk call also
+    re-checks the whole of Coq Reals, Flocq, Coquelicot, Bignums and Interval (> 25 minutes without the VM);
+    here those libraries are admitted (-norec on each FendV module) and the VM is enabled, which re-checks
+    exactly our own files (7 s)."""
+    fresh = os.path.join(CACHE, 'fresh_%s' % c.prop)
+    shutil.rmtree(fresh, ignore_errors=True)
+    os.makedirs(fresh)
+    for rel in [m.replace('.', '/') + '.v' for m in C15_CONE]:
+        dst = os.path.join(fresh, rel)
+        os.makedirs(os.path.dirname(dst), exist_ok=True)
+        shutil.copy(os.path.join(COQ, rel), dst)
+    # a project file restricted to the cone
+    with open(os.path.join(fresh, '_CoqProject'), 'w') as fh:
+        fh.write('-Q . FendV\n-arg -w -arg -notation-overridden,-deprecated-hint-without-locality,-deprecated-instance-without-locality\n')
+        for m in C15_CONE:
+            fh.write(m.replace('.', '/') + '.v\n')
+    rc, out = sh('coq_makefile -f _CoqProject -o Makefile && make -j%d Properties/C15.vo' % NPROC, cwd=fresh, timeout=3000)
+    res = {'fresh_rebuild': rc == 0, 'modules': C15_CONE}
+    if rc != 0:
+        c.proof_failed = {'stage': 'fresh-rebuild', 'where': fresh, 'log': out[-3000:]}
+        c.extra['thorough_proof'] = res
+        return res
+    cmd = ['coqchk', '-silent', '-o', '-bytecode-compiler', 'yes', '-Q', fresh, 'FendV']
+    for m in C15_CONE:
+        cmd += ['-norec', 'FendV.' + m]
+    rc, out = sh(cmd, cwd=fresh, timeout=3000)
+    res['coqchk'] = rc == 0
+    res['coqchk_scope'] = 'every FendV module of the cone re-checked; Coq standard library, Flocq, Coquelicot, Bignums, Interval admitted (-norec)'
+    mark = '* Constants/Inductives relying on type-in-type'
+    tail = out[out.find(mark):] if mark in out else out[-600:]
+    res['coqchk_tail'] = ' '.join(tail.split())[:400]
+    if rc != 0:
+        c.proof_failed = {'stage': 'coqchk', 'where': fresh, 'log': out[-3000:]}
+    shutil.rmtree(fresh, ignore_errors=True)
+    c.extra['thorough_proof'] = res
+    return res
+
+
 def check(c):
     c.rule = ('L1: rationals with 1..35 limbs per component incl. overflow/subnormal/tie corpus (into_f64, bit-exact), f64 bit patterns over all exponents (from_f64), '
               'every Real function on Simple and Pi-pattern arguments with libm answers supplied as an oracle table, BigRat::pow/Real::pow with root indices 2..7; '
@@ -1063,7 +1107,7 @@ def check(c):
               'exp/powers/constants, complex extensions, domain edges, probes of each known class; non-trivial = anything but the literal exact points; distinct by input text')
     ok = c.proof(['C15'], extra_targets=['Extract/XElem.vo', 'Elem/PointDefs.vo'])
     if c.tier == 'thorough' and ok:
-        c.thorough_proof(['C15'])
+        thorough_proof_c15(c)
     pim = check_pi(c)
     check_into_f64(c)
     check_from_f64(c)
